@@ -164,7 +164,7 @@ func init() {
 			func(yield func(apuCase) bool) {
 				for ch := 0; ch < 4; ch++ {
 					name := fmt.Sprintf("c19-ch%d", ch+1)
-					pre := []apuEv{{K: "w", A: 0xff26, V: 0x00}, {K: "w", A: 0xff26, V: 0x80}, {K: "w", A: 0xff13, V: 0xff}}
+					pre := []apuEv{{K: "w", A: 0xff26, V: 0x00}, {K: "w", A: 0xff26, V: 0x80}, {K: "w", A: 0xff13, V: 0xff}, {K: "w", A: c19Ch[ch].len, V: 0x00}}
 					for i := range apuAlphabets[name] {
 						if !yield(apuCase{Name: name, Pre: pre, First: i, Depth: depth, MaxW: 3, Alpha: name}) {
 							return
